@@ -161,7 +161,7 @@ def work_gen(task):
     try:
         for i in range(start, start + count):
             rnd = random.Random((seed << 32) ^ (i * 2654435761 & 0xffffffff) ^ 0xC02)
-            g = DF.ForestGen(rnd, DF.FCfg(max_units=rnd.choice([1, 3, 5, 8]), max_dies=rnd.choice([10, 30, 60])))
+            g = DF.ForestGen(rnd, DF.FCfg(max_units=rnd.choice([1, 3, 5, 8]), max_dies=rnd.choice([10, 30, 60]), odd_tags=0.04))
             f = g.forest()
             data = build_file(f)
             try:
@@ -326,7 +326,7 @@ def replay(path):
     rec = json.load(open(path))
     if "recipe" in rec:
         rnd = random.Random((rec["recipe"]["seed"] << 32) ^ (rec["recipe"]["index"] * 2654435761 & 0xffffffff) ^ 0xC02)
-        g = DF.ForestGen(rnd, DF.FCfg(max_units=rnd.choice([1, 3, 5, 8]), max_dies=rnd.choice([10, 30, 60])))
+        g = DF.ForestGen(rnd, DF.FCfg(max_units=rnd.choice([1, 3, 5, 8]), max_dies=rnd.choice([10, 30, 60]), odd_tags=0.04))
         f = g.forest()
         data = build_file(f)
         drv = Driver()
